@@ -926,3 +926,5 @@ Definition new_rewriter (cfg : settings) (c0 : C) : rewriter := mkRw (new_stream
 Definition rw_sink (r : rewriter) : list sink_call := rev r.(rw_stream).(s_ctx).(c_disp).(d_sink).
 
 End WithController.
+
+Arguments DOk {C A}. Arguments DErr {C A}. Arguments DPanic {C A}.
